@@ -398,8 +398,20 @@ pub fn generate(
                                     })
                                     .unwrap_or_else(|err| #crate_name::Response::from_errors(::std::vec![err]));
 
-                                    use ::std::iter::Extend;
-                                    resp.errors.extend(::std::mem::take(&mut *query_env.errors.lock().unwrap()));
+                                    {
+                                        // Only take the errors captured while resolving this root field's event;
+                                        // events of other root fields may be resolving concurrently.
+                                        let mut errors = query_env.errors.lock().unwrap();
+                                        let (own, others): (::std::vec::Vec<_>, ::std::vec::Vec<_>) = ::std::iter::Iterator::partition(
+                                            ::std::iter::IntoIterator::into_iter(::std::mem::take(&mut *errors)),
+                                            |err: &#crate_name::ServerError| match <[_]>::first(&err.path) {
+                                                ::std::option::Option::Some(#crate_name::PathSegment::Field(name)) => ::std::string::String::as_str(name) == &*field_name,
+                                                _ => true,
+                                            },
+                                        );
+                                        *errors = others;
+                                        ::std::iter::Extend::extend(&mut resp.errors, own);
+                                    }
                                     resp
                                 }
                             };
